@@ -52,12 +52,76 @@ pub fn option_set(rng: &mut Rng) -> (Vec<String>, String) {
     (args, d)
 }
 
+/// A Gambit file whose constant is not representable: a 2x2 game with payoffs B + kU for player one
+/// and B - kU for player two, U = 2^1010, B = 11000 U (about 1.2e308): every payoff is a finite
+/// double and an exact multiple of U, every pair sums to 2B > f64::MAX. The file is constant-sum;
+/// what is printed must be a valid profile with each player's own expected payoff and regret.
+fn huge_constant_case(ctx: &mut Ctx, idx: u64, rng: &mut Rng, cli_path: &str, scratch: &str) {
+    let u = 2f64.powi(1010);
+    let b = 11000.0 * u;
+    let k: Vec<Vec<f64>> = (0..2).map(|_| (0..2).map(|_| rng.range(0, 6) as f64 - 3.0).collect()).collect();
+    let mut text = String::from("EFG 2 R \"huge constant\" { \"A\" \"B\" }\n\np \"\" 1 1 \"row\" { \"r0\" \"r1\" } 0\n");
+    let mut o = 1;
+    for i in 0..2 {
+        text.push_str("p \"\" 2 1 \"col\" { \"c0\" \"c1\" } 0\n");
+        for j in 0..2 {
+            text.push_str(&format!("t \"\" {} {{ {:?} {:?} }}\n", o, b + k[i][j] * u, b - k[i][j] * u));
+            o += 1;
+        }
+    }
+    let path = format!("{}/c15-huge-{}-{}.efg", scratch, ctx.shard, idx % 64);
+    std::fs::write(&path, &text).expect("write game file");
+    let iters = *rng.pick(&["20", "200"]);
+    let args: Vec<String> = ["-m", "full", "-t", iters, "-p", "1", "-i", &path].iter().map(|s| s.to_string()).collect();
+    ctx.mark(idx, "huge-constant file");
+    ctx.count("files-whose-constant-is-not-representable", 1);
+    let r = cli::run(cli_path, &args, None, Duration::from_secs(120));
+    let _ = std::fs::remove_file(&path);
+    let detail = || json!({"file": text, "args": args, "stderr": r.stderr.chars().take(600).collect::<String>(), "stdout": r.stdout.chars().take(800).collect::<String>()});
+    if r.timed_out {
+        ctx.inconclusive("cli-watchdog");
+        return;
+    }
+    if r.status != Some(0) {
+        ctx.violation(idx, "C15:gambit:valid-file-rejected:huge-constant", &format!("cfr exited with {:?} on a valid constant-sum Gambit file whose payoffs are finite doubles around 1.2e308 (constant beyond f64::MAX): {}", r.status, r.stderr.lines().nth(1).unwrap_or("")), detail());
+        return;
+    }
+    // semantic tree in units of U (player one's payoff net of B)
+    let tree = crate::gen::player(0, "row", (0..2).map(|i| (format!("r{}", i), crate::gen::player(1, "col", (0..2).map(|j| (format!("c{}", j), crate::gen::term(k[i][j]))).collect()))).collect());
+    let flat = Flat::new(&tree);
+    let printed = match cli::parse_output(&r.stdout, &flat) {
+        Ok(p) => p,
+        Err((sig, msg)) => {
+            ctx.violation(idx, &format!("C15:gambit:{}:huge-constant", sig), &msg, detail());
+            return;
+        }
+    };
+    let (s1, s2) = (&printed.profile[0][0], &printed.profile[1][0]);
+    let e: f64 = (0..2).map(|i| (0..2).map(|j| s1[i] * s2[j] * k[i][j]).sum::<f64>()).sum();
+    let br1 = (0..2).map(|i| (0..2).map(|j| s2[j] * k[i][j]).sum::<f64>()).fold(f64::NEG_INFINITY, f64::max) - e;
+    let br2 = e - (0..2).map(|j| (0..2).map(|i| s1[i] * k[i][j]).sum::<f64>()).fold(f64::INFINITY, f64::min);
+    let want = [("player_one_utility", b + e * u, printed.util[0]), ("player_two_utility", b - e * u, printed.util[1]), ("player_one_regret", br1.max(0.0) * u, printed.regrets[0]), ("player_two_regret", br2.max(0.0) * u, printed.regrets[1]), ("regret", br1.max(br2).max(0.0) * u, printed.regret)];
+    for (name, w, g) in want {
+        // utilities are compared relative to themselves, regrets relative to the unit U
+        let tol = if name.ends_with("utility") { 1e-12 * b } else { 1e-9 * u };
+        if !((w - g).abs() <= tol) {
+            ctx.violation(idx, &format!("C15:gambit:{}:huge-constant", name), &format!("printed {} = {:e} but the printed strategies give {:e} in the game as written", name, g, w), detail());
+            return;
+        }
+    }
+    ctx.ok(mix(crate::rng::hash_str(&text) ^ crate::rng::hash_str(iters)), true);
+}
+
 pub fn run(ctx: &mut Ctx) {
     let quick = ctx.quick();
     let n = if quick { 6_000 } else { 300_000 };
     let cli_path = ctx.cli.clone().expect("--cli");
     let scratch = ctx.scratch.clone();
     ctx.run_cases(n, |ctx, idx, rng| {
+        if idx % 400 == 3 {
+            huge_constant_case(ctx, idx, rng, &cli_path, &scratch);
+            return;
+        }
         let size = *rng.pick(&[0usize, 1, 1, 2]);
         let (desc, fg) = random_file(rng, size);
         let flat = Flat::new(&fg.tree);
@@ -170,7 +234,7 @@ pub fn run(ctx: &mut Ctx) {
         let _ = std::fs::remove_file(&path);
     });
     ctx.finish(crate::report::extra(
-        "cases = (game file, option set) runs of the shipped binary: files generated from G1/G2 trees in the JSON DSL (shuffled key order, optional/null chance infosets, integer and float literals) and in Gambit .efg (constant sums in {0,10,-3.5,1,100}, payoffs split over interior nodes, outcomes shared between terminals, unnamed and partly named infosets, names equal to number strings of the other player's infosets, rational and decimal chance probabilities, chance actions that all carry the same label, unsorted action lists, outcome names, comma/space payoff lists, comment, names with quotes/backslashes/non-ascii) x -m {full,sampled,external,default} x -d {five presets, default} x -t {1,10,200; 0 only with -m full -d vanilla -r 0.05} x -r x -p {1,2,0} x -c {none,0,0.01,0.3} x extension {.json/.efg, .txt with or without --input-format} x route {-i file, standard input with or without --input-format} x {document as written, surrounded by white space} x output {stdout, -o file that is absent / holds a longer earlier result / holds a shorter one}. Required: exit status 0; stdout is one JSON object; both strategies list every infoset of the file for that player with positive probabilities over the file's action names summing to 1; printed utilities equal the O5 evaluation of the printed strategies on the harness' semantic tree of the file for each player's own payoffs (constant-sum files: they add up to the constant); printed regrets equal the best-response gains; regret is the larger one. distinct = hash(file text, options); non-trivial = game has a decision infoset.",
+        "cases = (game file, option set) runs of the shipped binary: files generated from G1/G2 trees in the JSON DSL (shuffled key order, optional/null chance infosets, integer and float literals) and in Gambit .efg (constant sums in {0,10,-3.5,1,100}, payoffs split over interior nodes, outcomes shared between terminals, unnamed and partly named infosets, names equal to number strings of the other player's infosets, rational and decimal chance probabilities, chance actions that all carry the same label, unsorted action lists, outcome names, comma/space payoff lists, comment, names with quotes/backslashes/non-ascii) x -m {full,sampled,external,default} x -d {five presets, default} x -t {1,10,200; 0 only with -m full -d vanilla -r 0.05} x -r x -p {1,2,0} x -c {none,0,0.01,0.3} x extension {.json/.efg, .txt with or without --input-format} x route {-i file, standard input with or without --input-format} x {document as written, surrounded by white space} x output {stdout, -o file that is absent / holds a longer earlier result / holds a shorter one}. Required: exit status 0; stdout is one JSON object; both strategies list every infoset of the file for that player with positive probabilities over the file's action names summing to 1; printed utilities equal the O5 evaluation of the printed strategies on the harness' semantic tree of the file for each player's own payoffs (constant-sum files: they add up to the constant); printed regrets equal the best-response gains; regret is the larger one. One case in 400 is a 2x2 Gambit file with payoffs B +- kU (U = 2^1010, B = 11000 U): finite doubles whose constant 2B is not representable; it must be solved, each player's printed utility must be that player's own expected payoff and the regrets the best-response gains. distinct = hash(file text, options); non-trivial = game has a decision infoset.",
         &["the harness' semantic tree is the meaning of the file (Gambit: infosets are identified by number, payoffs accumulate along the path)", "tolerance 1e-9 x (max|payoff| + |constant|)"],
     ));
 }
